@@ -42,7 +42,16 @@ pub fn check_value(v: &V, local: &mut Local, well_formed: bool, f: &dyn Fn(&V) -
         Ok(()) => {
             local.outcome("ok");
         }
-        Err(_) => {
+        Err((stage0, detail0)) => {
+            // a change that breaks (nearly) everything: after 300 minimised failures (process-wide) the rest
+            // are recorded unshrunk under their own shape (minimising 10^5 failing values would take
+            // hours and adds nothing to the verdict)
+            static SHRUNK: std::sync::atomic::AtomicU64 = std::sync::atomic::AtomicU64::new(0);
+            if SHRUNK.fetch_add(1, std::sync::atomic::Ordering::Relaxed) > 300 {
+                local.outcome(&stage0);
+                local.fail(&format!("{stage0}:{}", shape_sig(v)), json!({"value": to_json(v)}), detail0);
+                return;
+            }
             let min = shrink(v, well_formed, &|c| f(c).is_err());
             let (stage, detail) = f(&min).err().expect("minimal value must still fail");
             let sig = format!("{stage}:{}", shape_sig(&min));
@@ -98,6 +107,11 @@ pub fn history_pairs<T: Sync>(name: &str, pool: &[T], op: &(dyn Fn(&T) -> String
             local.evals += 1;
             let _ = crate::engine::guarded(|| op(&pool[w]));
             let got = crate::engine::guarded(|| op(&pool[v])).unwrap_or_else(|p| format!("panic: {p}"));
+            if got != *want && local.fails.contains_key(&format!("history-changes-output:{name}")) {
+                // (already witnessed on this worker: count, do not search for another minimal history)
+                local.fail_count += 1;
+                continue;
+            }
             if got != *want {
                 // which history is needed? this worker has executed w, v0, w, v1, ..., w, v: find the
                 // shortest suffix of that sequence that gives the same wrong result on a fresh thread
